@@ -175,7 +175,7 @@ impl Property for C20 {
     fn budget(&self, tier: Tier) -> Budget {
         match tier {
             Tier::Quick => Budget { release: 8_000, dbg: 0, workers: 8 },
-            Tier::Thorough => Budget { release: 40_000, dbg: 0, workers: 16 },
+            Tier::Thorough => Budget { release: 300_000, dbg: 0, workers: 16 },
         }
     }
     fn probes(&self) -> Vec<Probe> {
